@@ -475,6 +475,8 @@ def rule_log_blocks(ctx):
                     cn = call_name(x)
                     if cn in ('readFromStream', 'read', 'seek', 'decodeFun', 'substrateFun', 'readline') or cn == 'next':
                         adv.append(x)
+            # (3) no control flow out of a LOG block: it would make the codec behave differently with logging on
+            jumps = [x for x in inside if isinstance(x, (ast.Continue, ast.Break, ast.Return, ast.Raise))]
             key = 'if LOG: %s' % norm(b.body[0]).split('\n')[0][:50]
             reason = None
             if adv and f.short == 'codec.ber.decoder.ConstructedPayloadDecoderBase.valueDecoder' and \
@@ -484,8 +486,10 @@ def rule_log_blocks(ctx):
                 if enc and norm(enc[0].test) == 'substrate.tell() < original_position + length':
                     reason = ('guard `substrate.tell() < original_position + length` is false after the schemaless component loop, '
                               'whose exit condition is its negation (length != -1 in the definite-length decoder)')
-            ok = not leaks and (not adv or reason is not None)
+            ok = not leaks and (not adv or reason is not None) and not jumps
             why = []
+            if jumps:
+                why.append('`%s` inside a LOG block: control flow of the codec depends on the debug flag' % norm(jumps[0]))
             if leaks:
                 why.append('`%s` defined under LOG is used at `%s`: the result differs with logging on' % (leaks[0][0], leaks[0][1].text()[:40]))
             if adv and not reason:
